@@ -75,11 +75,11 @@ fn identical(a: Codes, b: Codes) -> bool {
 
 /// The classes of structurally different codes that have identical codewords
 /// (proved codeword-identical, for every value, by `class_*` below): 1 = unary,
-/// 2 = gamma, 3 = Rice_1, 4 = Rice_2, 5 = Rice_3.
+/// 2 = gamma (incl. zeta_1, exp-Golomb_0, pi_0, which the identifier table aliases to GAMMA), 3 = Rice_1, 4 = Rice_2, 5 = Rice_3.
 fn class(c: Codes) -> u8 {
     match c {
         Codes::Unary | Codes::Rice { log2_b: 0 } | Codes::Golomb { b: 1 } => 1,
-        Codes::Gamma | Codes::Zeta { k: 1 } | Codes::ExpGolomb { k: 0 } => 2,
+        Codes::Gamma | Codes::Zeta { k: 1 } | Codes::ExpGolomb { k: 0 } | Codes::Pi { k: 0 } => 2,
         Codes::Rice { log2_b: 1 } | Codes::Golomb { b: 2 } => 3,
         Codes::Rice { log2_b: 2 } | Codes::Golomb { b: 4 } => 4,
         Codes::Rice { log2_b: 3 } | Codes::Golomb { b: 8 } => 5,
@@ -184,8 +184,8 @@ macro_rules! class_h {
 }
 class_h!(class_unary_be, BE, [Codes::Unary, Codes::Rice { log2_b: 0 }, Codes::Golomb { b: 1 }]);
 class_h!(class_unary_le, LE, [Codes::Unary, Codes::Rice { log2_b: 0 }, Codes::Golomb { b: 1 }]);
-class_h!(class_gamma_be, BE, [Codes::Gamma, Codes::Zeta { k: 1 }, Codes::ExpGolomb { k: 0 }]);
-class_h!(class_gamma_le, LE, [Codes::Gamma, Codes::Zeta { k: 1 }, Codes::ExpGolomb { k: 0 }]);
+class_h!(class_gamma_be, BE, [Codes::Gamma, Codes::Zeta { k: 1 }, Codes::ExpGolomb { k: 0 }, Codes::Pi { k: 0 }]);
+class_h!(class_gamma_le, LE, [Codes::Gamma, Codes::Zeta { k: 1 }, Codes::ExpGolomb { k: 0 }, Codes::Pi { k: 0 }]);
 class_h!(class_rice1_be, BE, [Codes::Rice { log2_b: 1 }, Codes::Golomb { b: 2 }]);
 class_h!(class_rice1_le, LE, [Codes::Rice { log2_b: 1 }, Codes::Golomb { b: 2 }]);
 class_h!(class_rice2_be, BE, [Codes::Rice { log2_b: 2 }, Codes::Golomb { b: 4 }]);
